@@ -123,9 +123,24 @@ fn gen(rng: &mut Rng, _idx: u64, tier: Tier) -> Case {
         }
     }
     let ch = *rng.pick(&[Chunking::Line, Chunking::Line, Chunking::Multi, Chunking::Pieces]);
-    let ops = gen::ops_of(rng, lines, ch);
-    let mut script = Script::file(args, ops);
-    script.tcp = rng.chance(0.2);
+    let mut script = Script::file(args, vec![]);
+    script.tcp = rng.chance(0.25);
+    if script.tcp && rng.chance(0.6) && lines.len() >= 2 {
+        // the feed reconnects; the old connection may end in the middle of a line (which is then just a malformed line)
+        let cut = rng.range(1, lines.len() as i64 - 1) as usize;
+        let rest = lines.split_off(cut);
+        let mut first = gen::ops_of(rng, lines, ch);
+        if rng.chance(0.5) {
+            let f = random_payload_frame(rng, acs[0].icao);
+            let h = modes::to_hex(&f).into_bytes();
+            let k = if rng.chance(0.4) { 14.min(h.len() - 1) } else { rng.range(1, h.len() as i64 - 1) as usize };
+            first.push(crate::script::Op::Data { dt_us: 0, bytes: crate::script::Bytes(h[..k].to_vec()), tag: "partial".into() });
+        }
+        first.push(if rng.chance(0.6) { crate::script::Op::Eof { dt_us: 0 } } else { crate::script::Op::Err { dt_us: 0, kind: "ConnectionReset".into() } });
+        script.conns = vec![crate::script::Conn::Accept { ops: first }, crate::script::Conn::Accept { ops: gen::ops_of(rng, rest, ch) }];
+    } else {
+        script.conns = vec![crate::script::Conn::Accept { ops: gen::ops_of(rng, lines, ch) }];
+    }
     Case { property: "C03".into(), mode: String::new(), script, args_b: None, log_level_b: None, meta: serde_json::Value::Null }
 }
 
